@@ -88,7 +88,7 @@ def do_step(chk: Check) -> None:
            'no "except Exception" between the return instruction and _do_step can swallow it', kind='base-exception')
     st = prog.cls('workchains.Stepper')
     for c in [st] + prog.subclasses(st):
-        for f in c.methods.values():
+        for f in c.vmethods.values():
             for tr in [t for t in ast.walk(f.node) if isinstance(t, ast.Try)]:
                 for h in tr.handlers:
                     bad = h.type is None or norm(h.type).split('.')[-1] in ('BaseException', '_PropagateReturn')
@@ -110,7 +110,7 @@ def return_shapes(chk: Check) -> None:
     st = prog.cls('workchains.Stepper')
     n = 0
     for c in prog.subclasses(st):
-        f = prog.view(c.methods.get('step'))
+        f = prog.view(c.vmethods.get('step'))
         if f is None:
             continue
         n += 1
@@ -153,11 +153,11 @@ def if_stepper(chk: Check) -> None:
     reach = cfg.reachable([s for s, l in t.succ if l == L_TRUE], include_src=True)
     chk.ob('DOM-if-short-circuit', f, t.id not in reach, 'once a predicate is true no later predicate is evaluated (the search loop is left)', node=t.ast, kind='first-true-wins')
     # the search runs over the conditionals in order, advancing the position on every false predicate
-    loops = [l for l in ast.walk(f.node) if isinstance(l, ast.For) and any(x is t.ast for x in ast.walk(l))]
-    ok = len(loops) == 1 and norm(loops[0].iter) == 'self._if_instruction'
-    var = norm(loops[0].target) if loops else ''
+    from ..rules import ordered_loop
+    loop = ordered_loop(f, t.ast)
     call = [c for c in _calls(t) if last_name(c) == 'is_true'][0]
-    ok = ok and norm(call.func.value) == var and [norm(a) for a in call.args] == ['self._workchain']
+    ok = loop is not None and ff0.canon.key(loop.seq) == 'self._if_instruction' and loop.is_element(call.func.value) \
+        and [ff0.canon.key(a) for a in call.args] == ['self._workchain']
     chk.ob('DOM-if-short-circuit', f, ok, 'predicates are tried in the order of the if_/elif_/else_ chain, each with the workchain', kind='in-order')
     false_side = cfg.reachable([s for s, l in t.succ if l == L_FALSE], include_src=True, edge_ok=no_exc)
     inc = [n for n in cfg.nodes if n.kind == 'stmt' and isinstance(n.ast, ast.AugAssign) and norm(n.ast.target) == 'self._pos' and isinstance(n.ast.op, ast.Add) and norm(n.ast.value) == '1']
